@@ -70,10 +70,10 @@ let () =
     let (o, acc) = decode_bytes None bs in pstr o; popt acc);
   register "stlopenrow" (fun r ->
     let row = rstr r in let acc = ropt r in
-    pres (fun (l, acc') -> plist prun_stl l; popt acc') (open_row row [] [] eattr0 acc));
+    pres (fun (l, acc') -> plist prun_stl l; popt acc') (open_row row [] [] sattr0_stl acc));
   register "stlttxrow" (fun r ->
     let row = rstr r in let acc = ropt r in
-    let (l, acc') = stl_ttx_row row [] [] eattr0 false acc in
+    let (l, acc') = stl_ttx_row row [] [] sattr0_stl false acc in
     pint 0; plist prun_stl l; popt acc');
   register "stlgsi" (fun r ->
     let blk = rstr r in
